@@ -115,6 +115,19 @@ fn run_bdd(seed: u64, budget: usize) -> ! {
             if bdd.active_var_impact(Var(v), &tl) != active { record(format!("C13: active_var_impact({}) wrong on {:?}; history: {}", v, tl, log.join("; "))); continue 'round; }
         }
         // rebuild from the plain node list (C14)
+        // C13 path cubes: pairwise disjoint, and where the goal variable has the goal value they cover exactly the (counter-)models
+        for (h, e) in &hs {
+            if h.value() < 2 { continue; }
+            for goal in [true, false] { for gv in 0..NV {
+                let cubes = bdd.interpretations(*h, goal, Var(gv), &[], &[]);
+                let sat = |c: &(Vec<Var>, Vec<Var>), a: usize| c.0.iter().all(|v| (a >> v.value()) & 1 == 0) && c.1.iter().all(|v| (a >> v.value()) & 1 == 1);
+                for a in 0..(1usize << NV) {
+                    let n_sat = cubes.iter().filter(|c| sat(c, a)).count();
+                    if n_sat > 1 { record(format!("C13: interpretations({:?},{},{}) has overlapping cubes at assignment {:#b}; history: {}", h, goal, gv, a, log.join("; "))); continue 'round; }
+                    if ((a >> gv) & 1 == 1) == goal && (n_sat == 1) != (((*e >> a) & 1 == 1) == goal) { record(format!("C13: interpretations({:?},{},{}) covers assignment {:#b} wrongly ({} cubes); history: {}", h, goal, gv, a, n_sat, log.join("; "))); continue 'round; }
+                }
+            } }
+        }
         let re = Bdd::from(bdd.nodes.clone());
         if re.nodes != bdd.nodes { record(format!("C14: rebuild from node list renumbers; history: {}", log.join("; "))); continue 'round; }
     }
@@ -161,6 +174,7 @@ fn sorted(mut v: Vec<V3>) -> Vec<V3> { v.sort(); v }
 fn run_adf(seed: u64, budget: usize) -> ! {
     let mut rng = Rng(seed.wrapping_mul(0xD1B54A32D192ED03) | 1);
     let mut checked = 0;
+    let mut c05_hung = false;
     'round: for round in 0..budget {
         if n_found() >= 6 { break; }
         let n = 1 + rng.below(4);
@@ -209,14 +223,32 @@ fn run_adf(seed: u64, budget: usize) -> ! {
             ("hybrid stable", hyb.stable().map(|v| tvs(&v)).collect()), ("hybrid pre-grounded stable", hyb_g.stable().map(|v| tvs(&v)).collect()),
         ];
         for (what, got) in st_variants { if sorted(got.clone()) != stable || got.len() != stable.len() { fail(&format!("C03 {}", what), format!("{:?}", got), format!("{:?}", stable)); } }
-        // C05 (n >= 1: the search does not terminate on the empty ADF, which cannot be written in the input format anyway)
-        for (hn, h) in [("Simple", Heuristic::Simple), ("MinModMinPathsMaxVarImp", Heuristic::MinModMinPathsMaxVarImp), ("MinModMaxVarImpMinPaths", Heuristic::MinModMaxVarImpMinPaths), ("Rand", Heuristic::Rand)] {
-            let got: Vec<V3> = native.stable_nogood(h).map(|v| tvs(&v)).collect();
-            if sorted(got.clone()) != stable || got.len() != stable.len() { fail(&format!("C05 stable_nogood({})", hn), format!("{:?}", got), format!("{:?}", stable)); }
-            let (s, r) = crossbeam_channel::unbounded();
-            native.two_val_nogood_channel(h, s);
-            let got: Vec<V3> = r.iter().map(|v| tvs(&v)).collect();
-            if sorted(got.clone()) != twoval || got.len() != twoval.len() { fail(&format!("C05 two_val_nogood_channel({})", hn), format!("{:?}", got), format!("{:?}", twoval)); }
+        // C05 (n >= 1: the search does not terminate on the empty ADF, which cannot be written in the input format anyway).
+        // Termination is part of the property and is NOT proved: every search runs on a fresh object in its own thread and
+        // has 10 s (these ADFs have <= 4 statements; the unchanged code needs milliseconds)
+        if !c05_hung {
+            for (hn, hi) in [("Simple", 0usize), ("MinModMinPathsMaxVarImp", 1), ("MinModMaxVarImpMinPaths", 2), ("Rand", 3)] {
+                let txt = text.clone();
+                let (tx, rx) = std::sync::mpsc::channel::<(Vec<V3>, Vec<V3>)>();
+                std::thread::spawn(move || {
+                    let h = [Heuristic::Simple, Heuristic::MinModMinPathsMaxVarImp, Heuristic::MinModMaxVarImpMinPaths, Heuristic::Rand][hi];
+                    let parser = AdfParser::default();
+                    if parser.parse()(&txt).is_err() { return; }
+                    let mut adf = Adf::from_parser(&parser);
+                    let st: Vec<V3> = adf.stable_nogood(h).map(|v| tvs(&v)).collect();
+                    let (s, r) = crossbeam_channel::unbounded();
+                    adf.two_val_nogood_channel(h, s);
+                    let tw: Vec<V3> = r.iter().map(|v| tvs(&v)).collect();
+                    let _ = tx.send((st, tw));
+                });
+                match rx.recv_timeout(std::time::Duration::from_secs(10)) {
+                    Ok((got, got2)) => {
+                        if sorted(got.clone()) != stable || got.len() != stable.len() { fail(&format!("C05 stable_nogood({})", hn), format!("{:?}", got), format!("{:?}", stable)); }
+                        if sorted(got2.clone()) != twoval || got2.len() != twoval.len() { fail(&format!("C05 two_val_nogood_channel({})", hn), format!("{:?}", got2), format!("{:?}", twoval)); }
+                    }
+                    Err(_) => { fail(&format!("C05 stable_nogood / two_val_nogood_channel({}) did not return within 10 s (no termination, or the sender was not dropped)", hn), "no answer".into(), format!("{:?} / {:?}", stable, twoval)); c05_hung = true; break; }
+                }
+            }
         }
         // C11: repeated call on the warm object
         if tvs(&native.grounded()) != g { fail("C11 grounded on a warm object", "different".into(), format!("{:?}", g)); }
